@@ -1056,7 +1056,9 @@ func (v *view) oracleC10() {
 	if f["method"] != want {
 		v.fail("C10", "transport-stream-method", "handler's ServerTransportStream method is %q, expected %q", f["method"], want)
 	}
-	if v.rs.deadline.IsZero() != (f["deadline"] == "") {
+	if v.rs.nestedIn != nil {
+		// deadline is inherited from the enclosing handler's context
+	} else if v.rs.deadline.IsZero() != (f["deadline"] == "") {
 		v.fail("C10", "deadline-presence", "caller has deadline: %v, handler sees deadline %q", !v.rs.deadline.IsZero(), f["deadline"])
 	} else if !v.rs.deadline.IsZero() && f["deadline"] != fmt.Sprint(int64(v.rs.deadline.Sub(v.s.t0))) {
 		v.fail("C10", "deadline-value", "caller deadline %d, handler deadline %s", int64(v.rs.deadline.Sub(v.s.t0)), f["deadline"])
